@@ -1,15 +1,20 @@
 // C46: ASCII armor and cleartext signatures round-trip.
 //
 // A. armor.Encode -> armor.Decode identity over body length x header map x block type x
-//    write chunking x read size, output compared byte for byte with a reference armor
-//    encoder written from RFC 4880 section 6 (own CRC-24, own radix-64), decoded by a strict
-//    reference decoder, and by `gpg --dearmor` when gpg is present; `gpg --enarmor`
-//    output is decoded by armor.Decode.
+//
+//	write chunking x read size, output compared byte for byte with a reference armor
+//	encoder written from RFC 4880 section 6 (own CRC-24, own radix-64), decoded by a strict
+//	reference decoder, and by `gpg --dearmor` when gpg is present; `gpg --enarmor`
+//	output is decoded by armor.Decode.
+//
 // B. CRC faults: every bit of the CRC line and every radix-64 character of the body
-//    changed -> rejected, never a different body accepted.
+//
+//	changed -> rejected, never a different body accepted.
+//
 // C. clearsign.Encode -> clearsign.Decode over a line grammar (all combinations up to 3
-//    lines) against an independent section 7.1 canonicalisation; signature verified by
-//    the package, by a reference RFC 4880 section 5.2.4 verifier, and by `gpg --verify-files`.
+//
+//	lines) against an independent section 7.1 canonicalisation; signature verified by
+//	the package, by a reference RFC 4880 section 5.2.4 verifier, and by `gpg --verify-files`.
 //
 //go:debug cryptocustomrand=1
 package main
@@ -537,7 +542,8 @@ func loadSigners(c *vf.Ctx) ([]signer, openpgp.EntityList) {
 	for _, n := range []string{"p256", "rsa", "dsa", "p384", "p521"} {
 		el, err := openpgp.ReadArmoredKeyRing(bytes.NewReader(pgpfix.Sec(n)))
 		if err != nil || len(el) != 1 {
-			panic(fmt.Sprintf("fixture key %s: %v", n, err))
+			c.Violation("key generated by GnuPG is rejected by ReadArmoredKeyRing", map[string]any{"key": n, "err": fmt.Sprint(err)})
+			return nil, nil
 		}
 		a, err := pgpref.ArmorDecode(pgpfix.Pub(n))
 		if err != nil {
@@ -563,6 +569,9 @@ func gpgAccepts(key string, h crypto.Hash) bool {
 
 func clearsignGrammar(c *vf.Ctx, g *pgpfix.GPG) {
 	signers, ring := loadSigners(c)
+	if signers == nil {
+		return
+	}
 	// line starts: the first six are the grammar of the design; the extras need dash-escaping
 	// of an inner "- " and of the signature armor header itself
 	starts := []string{"", "-", "- ", "-----", "From ", "text", "- x", "-----BEGIN PGP SIGNATURE-----"}
@@ -839,6 +848,9 @@ func sameLines(a, b [][]byte) bool {
 // dash-escapes "From " lines) are decoded by clearsign.Decode to the canonical text and verify.
 func gpgCleartextFixtures(c *vf.Ctx) {
 	signers, ring := loadSigners(c)
+	if signers == nil {
+		return
+	}
 	lines := pgpref.CleartextLines(pgpfix.Plain())
 	for _, sg := range signers {
 		msg := pgpfix.Msg("clear." + sg.name + ".asc")
